@@ -188,11 +188,16 @@ def _ctparse(
         logger.debug("time in _regex_stack: {:.0f}ms".format(1000 * _ts))
 
         # add empty production path + counter of contained regex
-        stack = [PartialParse.from_regex_matches(s) for s in regex_stack]
+        stack = []
+        for s in regex_stack:
+            # there may be exponentially many sequences: honour the deadline
+            t_fun()
+            stack.append(PartialParse.from_regex_matches(s))
         # TODO: the score should be kept separate from the partial parse
         # because it depends also on the text and the ts. A good idea is
         # to create a namedtuple of kind StackElement(partial_parse, score)
         for pp in stack:
+            t_fun()
             pp.score = scorer.score(txt, ts, pp)
 
         logger.debug("initial stack length: {}".format(len(stack)))
